@@ -134,6 +134,9 @@ def e1(name, what, bounds, functions, tiers=Q, timeout=1500, mem_gb=8, cost=2, *
 
 
 E1 = dict(
+    pos2=e1("h_input::pos_after_law_2", "line/column law of position_after and span_from (tiny bound, robust canary)", "valid UTF-8 <= 2 bytes, any position", F_POS),
+    abs3=e1("h_input::pos_absolute_3", "absolute line/column law (tiny bound, robust canary)", "valid UTF-8 <= 3 bytes, any cut", F_POS),
+    ws3=e1("h_lexer::ws_skip_3", "whitespace skipping (tiny bound, robust canary)", "valid UTF-8 <= 3 bytes, any char-boundary start", F_SKIP + F_POS),
     pos4=e1("h_input::pos_after_law_4", "line/column law of position_after and span_from", "valid UTF-8 <= 4 bytes, any position", F_POS),
     pos6=e1("h_input::pos_after_law_6", "line/column law of position_after and span_from", "valid UTF-8 <= 6 bytes, any position", F_POS, tiers=T),
     pos8=e1("h_input::pos_after_law_8", "line/column law of position_after and span_from", "valid UTF-8 <= 8 bytes, any position", F_POS, tiers=T, cost=4),
@@ -151,6 +154,7 @@ E1 = dict(
     err2=e1("h_error::error_expected_span_2", "syntax error span = zero-width span at the lexing position", "positions <= 3, 2 expected kinds", F_ERR, mem_gb=12, tiers=T),
     sliceb=e1("h_builder::slice_builder_4", "SliceBuilder saves input[context.span()]", "valid UTF-8 <= 4 bytes", F_SLICEB),
     tree00=e1("h_builder::tree_reduce_0_0", "empty reduction on an empty result stack", "-", F_TREEB),
+    gettop=e1("h_builder::get_result_top_of_2", "get_result returns the node on top of the result stack (2 nodes present)", "symbolic kinds/spans/layouts", F_TREEB),
     buildtwin=e1("h_builder::builder_twin_must_fail", "vacuity twin (must FAIL)", "-", F_TREEB, expect_fail=True),
 )
 for (k, l, tiers) in [(1, 0, Q), (1, 1, Q), (2, 1, T), (2, 2, Q), (3, 0, Q), (3, 2, Q), (3, 3, T), (4, 2, T), (4, 4, T)]:
@@ -198,7 +202,7 @@ PROPS["C01"] = dict(
     harnesses=e4_harnesses(),
 )
 
-F_LOOP = ["rustemo/src/lr/parser.rs: body of the `loop` of LRParser::parse_with_context (sliced verbatim), ParseStack::{push_state, pop_states, state}, LRParser::next_token (whole file re-hosted byte for byte with Vec -> fixed-capacity stand-in, Position/SourceSpan -> offset-only stand-ins)",
+F_LOOP = ["rustemo/src/lr/parser.rs: LRParser::parse_with_context from `let mut state = parse_stack.state();` to the end of its `loop` (sliced verbatim; first lookahead, one symbolic iteration, Accept), ParseStack::{push_state, pop_states, state}, LRParser::next_token (whole file re-hosted byte for byte with Vec -> fixed-capacity stand-in, Position/SourceSpan -> offset-only stand-ins)",
           "rustemo/src/lr/context.rs: LRContext (re-hosted)", "rustemo/src/lexer.rs: Lexer trait, Token (re-hosted)"]
 
 
@@ -215,6 +219,7 @@ STEP = [
     steph("step_4", "one LR step from a 4-item stack = textbook step", tiers=T),
     steph("step_2_empty_cell", "empty action cell (unexpected token kind from a custom lexer) -> Err, no panic"),
     steph("step_twin_must_fail", "vacuity twin (must FAIL)", expect_fail=True),
+    steph("next_token_partial", "real LRParser::next_token: found token unchanged; synthetic STOP only if nothing matches, STOP expected and partial parsing on; else error at the post-layout position"),
 ]
 PROPS["STEP"] = dict(level="other", explanation="LR step harnesses (development only)", harnesses=STEP)
 
@@ -313,8 +318,8 @@ PROPS["C02"] = dict(
     ),
     residual="the composition over a whole parse for grammars outside the corpus; partial parsing at the loop level (the synthetic-STOP rule of next_token is decided only through the re-hosted next_token when present in the step harness)",
     assumptions=["see C01 for the corpus/automaton assumptions", "stand-ins of the step harness: Vec -> fixed-capacity vector, Position/SourceSpan -> offsets only, symbolic ParserDefinition/Lexer/Builder recording their calls"],
-    harnesses=STEP[:3] + [STEP[3], STEP[5]]
-    + [E1[k] for k in ("tree10", "tree11", "tree21", "tree22", "tree30", "tree32", "tree33", "tree42", "tree44", "tree00", "buildtwin")]
+    harnesses=STEP[:3] + [STEP[3], STEP[5], STEP[6]]
+    + [E1[k] for k in ("tree10", "tree11", "tree21", "tree22", "tree30", "tree32", "tree33", "tree42", "tree44", "tree00", "gettop", "buildtwin")]
     + pick(PROPS["C05"], ["res_shift", "res_reduce", "res_shift_reduce"])
     + [E4Q[n] for n in ("lr_g1_expr_q", "lr_g5_opt_list_q", "lr_g7_sugar_q", "lr_g1_expr_t", "lr_g5_opt_list_t", "lr_g7_sugar_t")],
 )
@@ -332,7 +337,7 @@ PROPS["C12"] = dict(
     ),
     residual="GLR error position (make_error picks the first head of the last frontier); the non-empty expected list text; grammars outside the corpus",
     assumptions=["see C01 for the corpus/automaton assumptions", "stub: fmt::format (message text is not a subject)"],
-    harnesses=[E1[k] for k in ("err1", "err2", "ws4", "ws6", "pos4", "pos6", "abs4", "lextwin")] + [STEP[1], STEP[5]]
+    harnesses=[E1[k] for k in ("err1", "err2", "ws3", "ws4", "ws6", "pos2", "pos4", "pos6", "abs3", "abs4", "lextwin")] + [STEP[1], STEP[5], STEP[6]]
     + [E4Q[n] for n in sorted(E4Q) if n.endswith("_q")][:8] + [E4Q[n] for n in sorted(E4Q) if n.endswith("_t")][:8],
 )
 
@@ -350,7 +355,7 @@ PROPS["C13"] = dict(
     ),
     residual="GLR span threading through the reducer; ordering/non-overlap of all leaves of a whole tree as a global statement (follows from the step facts by induction, not decided as a whole)",
     assumptions=["recognizer model: arbitrary prefix matcher", "step harness stand-ins as in C02"],
-    harnesses=[E1[k] for k in ("pos4", "pos6", "pos8", "abs4", "abs6", "bytes", "tok4", "tok6", "lextwin")] + STEP[:4] + [STEP[5]],
+    harnesses=[E1[k] for k in ("pos2", "pos4", "pos6", "pos8", "abs3", "abs4", "abs6", "bytes", "tok4", "tok6", "lextwin")] + STEP[:4] + [STEP[5]],
 )
 
 PROPS["C14"] = dict(
@@ -365,7 +370,7 @@ PROPS["C14"] = dict(
     ),
     residual="the Layout-rule sub-parser as a whole, the round trip over a whole parse, 'inserting layout never changes the tree'",
     assumptions=["step harness stand-ins as in C02"],
-    harnesses=[E1[k] for k in ("ws4", "ws6", "sliceb", "tree11", "tree22", "tree32", "tree30", "lextwin")] + [STEP[1], STEP[2], STEP[5]],
+    harnesses=[E1[k] for k in ("ws3", "ws4", "ws6", "sliceb", "tree11", "tree22", "tree32", "tree30", "lextwin")] + [STEP[1], STEP[2], STEP[5]],
 )
 
 PROPS["C15"] = dict(
@@ -381,7 +386,7 @@ PROPS["C15"] = dict(
     ),
     residual="termination / panic-freedom of the complete LR and GLR loops on real text (e.g. a terminal whose regex matches the empty string can be shifted for ever - observed by reading, not decidable here); the GLR reducer",
     assumptions=["recognizer model: arbitrary prefix matcher", "step harness stand-ins as in C02"],
-    harnesses=[E1[k] for k in ("pos4", "pos6", "slice4", "slice6", "bytes", "ws4", "ws6", "tok4", "tok6", "sliceb", "tree00", "lextwin")]
+    harnesses=[E1[k] for k in ("pos2", "pos4", "pos6", "slice4", "slice6", "bytes", "ws3", "ws4", "ws6", "tok4", "tok6", "sliceb", "tree00", "lextwin")]
     + [STEP[4], STEP[1], STEP[5]] + [E4Q[n] for n in ("lr_g2_nullable_q", "lr_g14_unary_chain_q", "lr_g2_nullable_t", "lr_g14_unary_chain_t")],
 )
 
